@@ -41,9 +41,14 @@ func (y *Yaml) IsFound() bool {
 //			y.Get("notPresent").IsFound()
 func (y *Yaml) Get(key any) *Yaml {
 	found := false
-	for _, n := range y.data.Content {
+	for i, n := range y.data.Content {
 		if found {
 			return &Yaml{n}
+		}
+		// in a mapping only keys (even positions) can match: a scalar value that equals the name of a later key
+		// (`pattern: minCount` followed by `minCount: 1`) must not shadow that key
+		if y.data.Kind == yaml.MappingNode && i%2 == 1 {
+			continue
 		}
 		if n.Kind == yaml.ScalarNode && n.Value == key {
 			found = true
